@@ -1,7 +1,7 @@
 #!/bin/sh
 # tools/full_matrix.sh [ids...] : every seeded change x every claimed check (6 checks at a time) -> build/full_matrix.tsv
 cd /verif
-ids="$@"; [ -z "$ids" ] && ids=$(ls seeded)
+ids="$@"; [ -z "$ids" ] && ids=$(cd seeded && ls -d */ | tr -d /)
 props=$(python3 -c "import json;print(' '.join(c['property_id'] for c in json.load(open('MANIFEST.json'))['checks']))")
 mkdir -p build/fm
 : > build/full_matrix.tsv
